@@ -175,6 +175,40 @@ if os.path.exists(_corpus):
                                       % (c["string"], got if got is not None else repr(f), c["atoms"], c.get("why")), string=c["string"], table=tname))
     stats["corpus"] = sum(1 for l in open(_corpus) if l.strip())
 
+# ---- wide strings: several hundred DISTINCT ions (and isotope ions), each written twice far apart, so that
+# any per-ion cache that recreates ions shows as an atom counted once instead of twice
+def wide_string(k):
+    ions = []
+    for el in ELEMENTS_ALL:
+        for q in el.ions:
+            ions.append((el.symbol, None, q))
+            if el.isotopes and rng.random() < 0.3:
+                ions.append((el.symbol, rng.choice(el.isotopes), q))
+    rng.shuffle(ions)
+    ions = ions[:k]
+    def txt(sym, iso, q):
+        return sym + ("[%d]" % iso if iso else "") + "{%s%s}" % (abs(q) if abs(q) > 1 else "", "+" if q > 0 else "-")
+    half = "".join(txt(*x) for x in ions)
+    return half + " + " + half, ions
+
+
+ELEMENTS_ALL = [el for el in PUB if el.number >= 1]
+for k in (40, 180, 420):
+    s_w, ions_w = wide_string(k)
+    for table, tname in ((PUB, "public"), (PRIV, "private")):
+        f = attempt(formula, s_w, table=table)
+        if isinstance(f, Exception):
+            fails.append(dict(signature="C01:wide-string-rejected", what="a string of %d ions written twice raises %s" % (k, type(f).__name__), string=s_w[:200], table=tname))
+            continue
+        bad = [(a, c) for a, c in f.atoms.items() if c != 2]
+        if len(f.atoms) != len(set(ions_w)) or bad:
+            fails.append(dict(signature="C01:repeated-atoms-do-not-add", what="formula of %d distinct ions each written twice has %d atoms; e.g. %r has count %r (expected 2): "
+                              "the same ion of one table is not the same object" % (len(set(ions_w)), len(f.atoms), bad[0][0] if bad else None, bad[0][1] if bad else None),
+                              string=s_w[:300] + " ...", table=tname))
+    obs_w, _ = observe(s_w, PUB)
+    cases.append("(mkC01 None %s %s)" % (cstr(s_w), obs_w)) if False else None
+stats["wide_strings"] = 3
+
 for i in range(ncase):
     depth = rng.randint(0, maxdepth)
     tree = gen_tree(depth)
